@@ -98,6 +98,7 @@ def run(prog, chk):
                     "anyway; an empty list means 'dflt'): no declared language system of a script is left without the generated kerning (R20.8)"]
     chk.decided += ["kern and dist partition the scripts that have kerning: the kern block takes <scripts> - D and the dist block D & <scripts> with one and the same set D on both sides, in both kern "
                     "writers - no script with generated kerning falls between the two features (R20.9)"]
+    chk.decided += ["the scripts kerning is registered for come only from code points that belong to exactly one script and from the declared language systems (R20.10)"]
     chk.not_decided += ["which scripts a given font ends up with in the compiled ScriptList"]
     writers = default_writers(prog)
     gpos = []
@@ -144,6 +145,7 @@ def run(prog, chk):
     chk.guard(check_generated_blocks_top_level, prog, chk, "R20.7")
     chk.guard(r208, prog, chk)
     chk.guard(r209, prog, chk)
+    chk.guard(r2010, prog, chk)
 
 
 def feature_tags(prog, w: ClassInfo) -> Set[str]:
@@ -403,7 +405,69 @@ def r209(prog, chk):
     chk.minimum("R20.9", 2)
 
 
+# ----------------------------------------------------------------------------- R20.10
+def r2010(prog, chk):
+    """The font's known scripts (for which kerning is registered under explicit script tags) are exactly the scripts of
+    code points that belong to one script only, plus the declared language systems: a script taken from anywhere else
+    (the primary Script of a shared character, a default) is registered for kerning without any languagesystem that
+    would make the mark / mkmk / curs features reachable from it."""
+    ix = prog.ix
+    gs = ix.get_method("ufo2ft.featureWriters.baseFeatureWriter.BaseFeatureWriter", "guessFontScripts", own=True)
+    rets = [r for r in A.returns_of(gs.node) if r.value is not None]
+    need(rets and all(isinstance(r.value, ast.Name) for r in rets), f"cannot interpret {gs.short}: the returned set")
+    acc = {r.value.id for r in rets}
+    sites = []  # (stmt, value exprs)
+    for st in A.stmts_of(gs.node):
+        if isinstance(st, ast.Expr) and isinstance(st.value, ast.Call) and isinstance(st.value.func, ast.Attribute) and isinstance(st.value.func.value, ast.Name) \
+                and st.value.func.value.id in acc:
+            need(st.value.func.attr in ("add", "update"), f"cannot interpret {gs.short}: `{T(st, 60)}`")
+            sites.append((st, list(st.value.args)))
+        elif isinstance(st, ast.AugAssign) and isinstance(st.target, ast.Name) and st.target.id in acc:
+            need(isinstance(st.op, ast.BitOr), f"cannot interpret {gs.short}: `{T(st, 60)}`")
+            sites.append((st, [st.value]))
+        elif isinstance(st, ast.Assign) and any(isinstance(t, ast.Name) and t.id in acc for t in st.targets):
+            v = st.value
+            empty = (isinstance(v, ast.Call) and A.callee_name(v) == "set" and not v.args) or (isinstance(v, ast.Set) and not v.elts)
+            if not empty:
+                sites.append((st, [v]))
+    need(sites, f"cannot interpret {gs.short}: nothing is added to the returned set")
+
+    def origin_kind(e, ff):
+        if isinstance(e, ast.Call):
+            n = A.callee_name(e)
+            if n == "unicodeScriptExtensions":
+                return "ext"
+            if n == "getScriptLanguageSystems":
+                return "fea"
+        return None
+    for st, vals in sites:
+        kinds: Set[str] = set()
+        bad = None
+        for v in vals:
+            names = [n for n in ast.walk(v) if isinstance(n, ast.Name) and isinstance(n.ctx, ast.Load) and n.id not in acc and n.id not in ("next", "iter", "set", "list", "sorted", "tuple", "frozenset")]
+            if not names:
+                bad = v
+            for nm in names:
+                found = []
+                ok, b = every_origin(prog, gs, nm, lambda x, ff: bool(origin_kind(x, ff)) and (found.append(origin_kind(x, ff)) or True), allow_const=False)
+                if not ok:
+                    bad = nm
+                kinds |= set(found)
+        ok = bad is None and kinds and kinds <= {"ext", "fea"}
+        if ok and "ext" in kinds:
+            fs = facts(prog, gs, st)
+            ok = any(o == "eq" and ((l.startswith("len(") and r == "1") or (r.startswith("len(") and l == "1")) for o, l, r in fs)
+        chk.ob("R20.10", f"{gs.short}|{T(st, 50)}|only single-script code points and declared language systems", bool(ok), where(gs, st), detail=f"sources: {sorted(kinds)}",
+               message=f"{gs.short}: `{T(st, 70)}` adds a script that is neither the only script of a code point (unicodeScriptExtensions of length 1) nor a declared language system: "
+                       f"kerning is then registered under that script's tag, while no languagesystem makes the generated mark / mkmk / curs features reachable from it")
+    chk.minimum("R20.10", 2)
+
+
 MUTANTS = [
+    M("primary script of shared letters and marks counted as a font script (seeded C20l)", "ufo2ft/featureWriters/baseFeatureWriter.py", "BaseFeatureWriter.guessFontScripts",
+      "if len(scripts) == 1:\n    single_scripts.update(scripts)", "if len(scripts) == 1:\n    single_scripts.update(scripts)\nelif chr(codepoint).isalpha():\n    single_scripts.add(sorted(scripts)[0])", rule="R20.10"),
+    M("scripts collected with |= and next(iter())", "ufo2ft/featureWriters/baseFeatureWriter.py", "BaseFeatureWriter.guessFontScripts",
+      "if len(scripts) == 1:\n    single_scripts.update(scripts)", "if 1 == len(scripts):\n    single_scripts |= scripts", kind="equiv"),
     M("dist block selects scripts with a narrower set than the kern block excludes (seeded C20k)", "ufo2ft/featureWriters/kernFeatureWriter.py", "KernFeatureWriter._registerLookups",
       "DIST_ENABLED_SCRIPTS.intersection(lookups.keys())", "(DIST_ENABLED_SCRIPTS - {'Mymr'}).intersection(lookups.keys())", rule="R20.9"),
     M("declared languages replaced by dflt when the default is excluded (mutation scan 4, k=20)", "ufo2ft/featureWriters/ast.py", "addLookupReferences",
